@@ -33,9 +33,7 @@ import (
 )
 
 const (
-	sigSmallBuf = "C13.ack-small-rcvbuf"
-	sigHugeBuf  = "C13.ack-huge-rcvbuf"
-	sigIDs      = "C13.chunks-unbounded-ids"
+	sigIDs = "C13.chunks-unbounded-ids"
 )
 
 type env struct {
@@ -81,6 +79,7 @@ type scase struct {
 	maxChunks uint32
 	maxMsg    uint32
 	ackReply  []uint32
+	own       uint32 // handshake-client: ReceiveBufSize of the client's own configuration
 	frames    []frame
 	goods     [][]byte
 	ln, rn    []byte
@@ -352,7 +351,7 @@ func (e *env) job(sc *scase) *h.RecvJob {
 		Ack: []uint32{sc.rcvBuf, 65535, sc.maxChunks, sc.maxMsg}, ChannelID: 11, TokenID: 22, Frames: frames, DeadlineMs: 20000,
 		WithKey: sc.setup == "fresh-server" || sc.setup == "open-server", AckReply: sc.ackReply}
 	if sc.setup == "handshake-client" {
-		j.Ack[0] = 65535 // the client's own value; the one in force afterwards is the peer's
+		j.Ack[0] = sc.own // the client's own value (its Hello); the one in force afterwards comes out of the handshake
 	}
 	return j
 }
@@ -487,15 +486,13 @@ func (e *env) runCase(sc *scase) {
 	// ---- the property's own oracle, on the implementation alone
 	switch {
 	case strings.HasPrefix(res.Outcome, "panic"), strings.HasPrefix(res.Outcome, "crash"):
-		sig := ""
-		if sc.rcvBuf < 12 { // signature: the receive buffer size in force is below 12 bytes
-			sig = sigSmallBuf
-			e.r.Confirm(sig, fmt.Sprintf("%s, ReceiveBufSize %d, %d-byte frame: %s", sc.setup, sc.rcvBuf, len(sc.frames[0].raw), strings.SplitN(res.Outcome, "\n", 2)[0]))
-		} else if sc.rcvBuf >= 1<<31 && strings.HasPrefix(res.Outcome, "crash") {
-			sig = sigHugeBuf
-			e.r.Confirm(sig, fmt.Sprintf("%s, ReceiveBufSize %d adopted from the Acknowledge: the process dies allocating the receive buffer (%.120s)", sc.setup, sc.rcvBuf, res.Outcome))
+		if sc.note == "direct" && sc.rcvBuf < 12 && strings.HasPrefix(res.Outcome, "panic") {
+			// a Conn constructed by the harness itself with a buffer below 12 bytes: not a value a
+			// peer can bring about (the handshake refuses it); only the model comparison counts
+			e.r.Hit("direct:small-buffer-panics-as-modelled")
+			break
 		}
-		e.fail(text, sig, "the receive path does not survive the stream: "+strings.SplitN(res.Outcome, "\n", 2)[0])
+		e.fail(text, "", "the receive path does not survive the stream: "+strings.SplitN(res.Outcome, "\n", 2)[0])
 	case strings.HasPrefix(res.Outcome, "blocked"):
 		// every byte was delivered and the socket half-closed, yet Receive sits on a lock/channel
 		e.blocked++
@@ -564,18 +561,80 @@ func (e *env) flood(setup string, n int) {
 	}
 }
 
-// ackCase: a client adopts the Acknowledge of a hostile server, then receives one frame.
-func (e *env) ackCase(rcv uint32, frameLen int) {
-	sc := &scase{setup: "handshake-client", uri: ua.SecurityPolicyURINone, mode: 1, rcvBuf: rcv, maxChunks: 512, maxMsg: 2 * 1024 * 1024,
-		ackReply: []uint32{rcv, 65535, 2 * 1024 * 1024, 512}}
+// ackMirror is what the handshake has to do with an Acknowledge (OPC UA Part 6, 7.1.2.4 and the
+// client's own announcement): refuse buffer sizes below 8192, never exceed the own value.
+func ackMirror(own, rcv, snd uint32) (uint32, bool) {
+	if rcv < 8192 || snd < 8192 {
+		return 0, false
+	}
+	if own != 0 && rcv > own {
+		return own, true
+	}
+	return rcv, true
+}
+
+// ackCase: a client performs the real HEL/ACK handshake against a server that answers with the
+// given (possibly hostile) buffer sizes; if the handshake succeeds it then receives one frame.
+func (e *env) ackCase(own, rcv, snd uint32, frameLen int) {
+	text := fmt.Sprintf("handshake own=%d ack.rcv=%d ack.snd=%d then a %d-byte frame", own, rcv, snd, frameLen)
+	sc := &scase{setup: "handshake-client", uri: ua.SecurityPolicyURINone, mode: 1, own: own, maxChunks: 512, maxMsg: 2 * 1024 * 1024,
+		ackReply: []uint32{rcv, snd, 2 * 1024 * 1024, 512}}
+	eff, accepted := ackMirror(own, rcv, snd)
+	// the handshake alone
+	probe := e.job(sc)
+	probe.Frames = nil
+	probe.DeadlineMs = 5000
+	res := e.w.Do(probe)
+	implRefused := strings.HasPrefix(res.Outcome, "setup") && strings.Contains(res.Outcome, "invalid buffer sizes in ACK")
+	if strings.HasPrefix(res.Outcome, "setup") && !implRefused {
+		e.r.InfraError = "worker: " + res.Outcome
+		return
+	}
+	impl := "refused"
+	if !implRefused {
+		impl = "accepted"
+	}
+	e.r.Count(text, true)
+	e.r.Hit("ack:" + impl)
+	if e.d != nil {
+		m := e.d.Ask(fmt.Sprintf("handshake %d %d %d", own, rcv, snd))
+		want := "refused"
+		if accepted {
+			want = fmt.Sprintf("rcvbuf=%d", eff)
+		}
+		if m != want || (m == "refused") != implRefused {
+			e.r.Disagree(text, m, impl+" (reference: "+want+")")
+		}
+	}
+	if implRefused {
+		if accepted {
+			e.fail(text, "", "the client refuses a conforming Acknowledge")
+		}
+		return
+	}
+	// accepted: the connection must survive the next frame with the size now in force; if the
+	// client accepted sizes the reference refuses, the size in force is the server's value
+	sc.rcvBuf = eff
+	if !accepted {
+		sc.rcvBuf = rcv
+	}
+	if frameLen > int(sc.rcvBuf) && sc.rcvBuf >= 8 {
+		return
+	}
 	b := make([]byte, frameLen)
 	copy(b, "MSGF")
 	binary.LittleEndian.PutUint32(b[4:], uint32(frameLen))
 	sc.frames = []frame{{raw: b}}
-	if frameLen > int(rcv) && rcv >= 8 {
-		return
-	}
-	e.r.Hit("ack:rcvbuf-class-" + map[bool]string{true: "<12", false: ">=12"}[rcv < 12])
+	e.runCase(sc)
+}
+
+// directCase: a Conn constructed with a receive buffer below 12 bytes (nothing a peer can cause).
+func (e *env) directCase(rcv uint32, frameLen int) {
+	sc := &scase{setup: "open", uri: ua.SecurityPolicyURINone, mode: 1, rcvBuf: rcv, maxChunks: 512, maxMsg: 2 * 1024 * 1024, note: "direct"}
+	b := make([]byte, frameLen)
+	copy(b, "MSGF")
+	binary.LittleEndian.PutUint32(b[4:], uint32(frameLen))
+	sc.frames = []frame{{raw: b}}
 	e.runCase(sc)
 }
 
@@ -699,7 +758,12 @@ func (e *env) replay(line string) {
 		return // sealed frames depend on nonces: secured cases are not replayable from text
 	}
 	if sc.setup == "handshake-client" {
-		sc.ackReply = []uint32{sc.rcvBuf, 65535, 2 * 1024 * 1024, 512}
+		// "handshake-client uri=None mode=1 raw <ack.rcv> …": the Acknowledge value; own 65535
+		e.ackCase(65535, sc.rcvBuf, 65535, 8)
+		return
+	}
+	if sc.rcvBuf < 12 {
+		sc.note = "direct"
 	}
 	for _, t := range f[10:] {
 		p := strings.Split(t, "/")
@@ -757,14 +821,17 @@ func main() {
 	for _, l := range o.CorpusLines() {
 		e.replay(l)
 	}
-	// hostile Acknowledge: ReceiveBufSize adopted unchecked by the client
-	for _, rcv := range []uint32{0, 4, 7, 8, 10, 11, 12, 16, 8192} {
-		for _, fl := range []int{8, 11, 12, 16} {
-			e.ackCase(rcv, fl)
+	// hostile and conforming Acknowledge values against the client's real handshake
+	for _, own := range []uint32{65535, 8192, 20000} {
+		for _, rcv := range []uint32{0, 4, 7, 8, 10, 11, 12, 16, 8191, 8192, 8193, 65535, 100000, 1 << 31, 4294967295} {
+			for _, snd := range []uint32{65535, 8192, 8191, 0} {
+				e.ackCase(own, rcv, snd, e.rnd.Pick(8, 11, 12, 16))
+			}
 		}
 	}
-	e.ackCase(4294967295, 8)
-	e.ackCase(1<<31, 8)
+	for _, rcv := range []uint32{4, 10} {
+		e.directCase(rcv, 8)
+	}
 	e.gateCase()
 	// floods
 	e.flood("open-server", o.N(8000, 20000))
@@ -777,7 +844,7 @@ func main() {
 	}
 	for _, b := range []string{"impl:err:decodeChunk", "impl:err:noOpening", "impl:err:cert", "impl:err:notRsa", "impl:err:policy", "impl:err:noInstance",
 		"impl:err:security", "impl:err:seqHeader", "impl:panic:conn", "impl:panic:hdr", "impl:result:nil", "impl:result:status", "impl:result:toomany", "impl:result:toolarge",
-		"setup:fresh-server", "setup:fresh-client", "setup:open-server", "setup:open", "setup:handshake-client", "gate:hostile-opn-response", "mode:1", "mode:2", "mode:3"} {
+		"setup:fresh-server", "setup:fresh-client", "setup:open-server", "setup:open", "setup:handshake-client", "ack:refused", "ack:accepted", "direct:small-buffer-panics-as-modelled", "gate:hostile-opn-response", "mode:1", "mode:2", "mode:3"} {
 		if r.Distribution[b] == 0 {
 			r.Unreached = append(r.Unreached, b)
 		}
